@@ -285,8 +285,13 @@ func normalizeForall(op string, bound []string, body string) string {
 			if !ok {
 				continue
 			}
-			// replace this read by row[u], then eliminate j
-			tree = tree.replaceTerm(r.text, app("select", r.row, atom(u)))
+			// replace this read (and reads of other rows at the same index) by row[u], then eliminate j
+			idxText := r.idx.String()
+			for _, r2 := range reads {
+				if r2.idx.String() == idxText {
+					tree = tree.replaceTerm(r2.text, app("select", r2.row, atom(u)))
+				}
+			}
 			tree = tree.subst(j, sol)
 			// remaining reads must be re-collected after substitution
 			defined[j] = true
